@@ -294,21 +294,33 @@ def _len_without_refresh(index):
     return len(labels) if labels is not None else len(index)
 
 
+def _targets_without_refresh(targets):
+    """The child nodes held by an ArrayGO (consolidated array plus pending list) read from its fields, so that observing the tree
+    does not fold the pending items in (that fold is the library's own lazy step and must be left for it to take)."""
+    if hasattr(targets, '_array_mutable') and hasattr(targets, '_array'):
+        out = list(targets._array) if targets._array is not None else []
+        if targets._array_mutable:
+            out.extend(targets._array_mutable)
+        return out
+    return list(targets)
+
+
 def level_invariant(level):
     """Every node's offset equals the number of leaves before it (within its parent);
     targets and index have equal length."""
     def leaves(node):
         if node.targets is None:
             return _len_without_refresh(node.index)
-        return sum(leaves(t) for t in node.targets)
+        return sum(leaves(t) for t in _targets_without_refresh(node.targets))
 
     def walk(node):
         if node.targets is None:
             return
-        if len(node.targets) != _len_without_refresh(node.index):
-            raise _Broken('level_targets_len', targets=len(node.targets), labels=_len_without_refresh(node.index))
+        targets = _targets_without_refresh(node.targets)
+        if len(targets) != _len_without_refresh(node.index):
+            raise _Broken('level_targets_len', targets=len(targets), labels=_len_without_refresh(node.index))
         run = 0
-        for t in node.targets:
+        for t in targets:
             if t.offset != run:
                 raise _Broken('level_offset', offset=int(t.offset), expected=run)
             run += leaves(t)
